@@ -65,6 +65,19 @@ def generate(rng, tier):
                     if pos + k < n:
                         s[pos + k] = rng.choice(SPECIALS)
                 add(rng.choice([0, 0, 3, 40]), rng.choice(garb), s, "special-runs")
+    # every ORDERED PAIR of adjacent byte values (the escape-run loop consults a second table for the byte that follows an escaped one):
+    # all 65536 pairs in the thorough tier; quick: every pair that contains a byte needing an escape or a neighbour of the class borders
+    hot = sorted(set(list(range(0, 0x22)) + [0x22, 0x23, 0x5B, 0x5C, 0x5D, 0x7E, 0x7F, 0x80, 0x81, 0xFF]))
+    for a in range(256):
+        for b in range(256):
+            if quick and not ((a in hot and b in hot) or (a in (0x0A, 0x22, 0x5C, 0x01, 0x1F) or b in (0x0A, 0x22, 0x5C, 0x01, 0x1F))):
+                continue
+            pre = rng.choice([0, 0, 1, 14, 15, 30, 31])
+            add(0, rng.choice(garb), [0x61] * pre + [a, b] + [0x61] * rng.choice([0, 0, 1, 16]), "adjacent-pair")
+    # uniformly random bytes (all values, any density of bytes that need escaping)
+    for _ in range(1500 if quick else 60000):
+        n = rng.choice([1, 2, 3, 8, 16, 31, 32, 33, 64, 65, 100, rng.randrange(0, 200)])
+        add(rng.choice([0, 0, 1, 31, 32, 33]), rng.randrange(256), [rng.randrange(256) for _ in range(n)], "uniform-bytes")
     # dense random
     for _ in range(4000 if quick else 150000):
         n = rng.choice([0, 1, 2, 3, 7, 15, 16, 17, 31, 32, 33, 48, 63, 64, 65, 100, 129, 200, rng.randrange(0, 300)])
